@@ -1504,6 +1504,14 @@ def execute(schedule, ctx):
             elif owned:
                 ok_ = e is None and isinstance(res[0], np.ndarray) and RC.arrays_equal(np.asarray(res[0]), d['_' + nm])
                 ctx.check('C11', 'eval/sees-its-own-data', ok_, {'name': nm, 'exc': type(e).__name__ if e else None})
+                # ... also when the caller hands the same dict as `locals` to every object of the run
+                try:
+                    got_ = x.eval(nm, locals=shared_locals)
+                    ok2_ = isinstance(got_, np.ndarray) and RC.arrays_equal(np.asarray(got_), d['_' + nm])
+                    ctx.check('C11', 'eval/shared-locals-dict-carries-data-between-objects', ok2_, {'name': nm, 'dict-now-holds': sorted(map(str, shared_locals))[:6]})
+                    ctx.probe('eval-with-a-shared-locals-dict')
+                except Exception as e_:
+                    ctx.check('C11', 'eval/shared-locals-dict-carries-data-between-objects', False, {'exc': type(e_).__name__})
             elif nm not in d['index'] and nm not in d.get('aliases', {}) and not hasattr(x, nm):
                 # a name only another object owns: nothing of that object may be visible here
                 ctx.probe('eval-of-a-name-only-another-party-owns')
